@@ -222,7 +222,7 @@ struct World {
 };
 
 static const char* userName(long n) { return n == 1 ? "u1" : n == 2 ? "u2" : n == 3 ? "ux" : ""; }
-static const char* secretOf(long n) { return n == 1 ? "s1" : n == 2 ? "s2" : n == 3 ? "sd" : n == 9 ? "bad" : ""; }
+static const char* secretOf(long n) { return n == 1 ? "s1" : n == 2 ? "s2" : n == 3 ? "sd" : n == 4 ? "s4" : n == 9 ? "bad" : ""; }
 
 static World* makeWorld(const JV& w, const string& dir) {
   World* W = new World();
@@ -232,11 +232,12 @@ static World* makeWorld(const JV& w, const string& dir) {
   {
     std::ofstream f(W->aclPath.c_str());
     f << "# name,secret,levels\n";  // the first line of an ACL file names the columns (comment = default columns)
+    if (dsrc == "both") { f << "*," << secretOf(3); string l = codes(w["d2"]); std::replace(l.begin(), l.end(), ';', ','); f << "," << l << "\n"; }
     if (dsrc == "acl") { f << "*," << secretOf(3); string l = dl; std::replace(l.begin(), l.end(), ';', ','); f << "," << l << "\n"; }
     for (auto& u : w["users"].a) {
       string l = codes(u["l"]);
       if (u["sep"].i == 1) std::replace(l.begin(), l.end(), ';', ',');  // one level per column instead of one column
-      f << userName(u["n"].i) << "," << secretOf(u["n"].i) << "," << l << "\n";
+      f << userName(u["n"].i) << "," << secretOf(u["sec"].t == JV::INT ? u["sec"].i : u["n"].i) << "," << l << "\n";
     }
   }
   static string s_acl, s_lvl;  // options keep pointers
@@ -246,7 +247,7 @@ static World* makeWorld(const JV& w, const string& dir) {
   vector<char*> argv;
   argv.push_back(const_cast<char*>("ebusd"));
   argv.push_back(const_cast<char*>(s_acl.c_str()));
-  if (dsrc == "opt") argv.push_back(const_cast<char*>(s_lvl.c_str()));
+  if (dsrc == "opt" || dsrc == "both") argv.push_back(const_cast<char*>(s_lvl.c_str()));
   argv.push_back(const_cast<char*>("--pollinterval=0"));
   argv.push_back(const_cast<char*>("--updatecheck=off"));
   argv.push_back(const_cast<char*>("-f"));
